@@ -13,8 +13,8 @@ ASSUMPTIONS = ["commission functions are harness-owned pure functions re-evaluat
 
 
 def plan(tier):
-    n = 1500 if tier == "quick" else 40000
-    m = 400 if tier == "quick" else 10000
+    n = 1500 if tier == "quick" else 16000
+    m = 400 if tier == "quick" else 4000
     return [dict(unit="w1", n=n, builds=["py", "so"], case_timeout=60), dict(unit="w2", n=m, builds=["py", "so"], case_timeout=120),
             dict(unit="w5", n=m // 2, builds=["py", "so"], case_timeout=120),
             dict(unit="replay", n=m // 3, builds=["py", "so"], case_timeout=180)]
